@@ -14,7 +14,9 @@ import (
 	"github.com/zmap/zlint/v3"
 	"github.com/zmap/zlint/v3/lint"
 
+	"verif/certgen"
 	"verif/core"
+	"verif/der"
 	"verif/seam"
 	"verif/seeds"
 	"verif/xstate"
@@ -25,6 +27,7 @@ func init() {
 	core.Checks["C05"] = checkC05
 	core.Checks["C05io"] = checkC05io
 	core.Checks["C05first"] = checkC05first
+	core.Checks["C05sat"] = checkC05sat
 	core.Replayers["C05"] = replayC05
 }
 
@@ -589,12 +592,125 @@ func replayC05(rp map[string]interface{}) (string, error) {
 	return "", nil
 }
 
+// c05Objects: the corpus plus a product of own TLS-leaf templates — every key-usage shape (each single
+// bit and five common pairs) × every EKU set of size ≤ 2 over seven purposes, with an RSA and an EC key.
+// Tables shared between lints (allowed KU per EKU, OID tables …) are indexed by exactly these fields, so
+// an object that widens such a table and an object that is judged by it are both in the set.
+func c05Objects() []seeds.Seed {
+	all := seeds.Load()
+	ekus := [][]int{certgen.EKUServerAuth, certgen.EKUClientAuth, certgen.EKUEmail, certgen.EKUCodeSigning, certgen.EKUOCSP, certgen.EKUTimeStamp, certgen.EKUAny}
+	ekuNames := []string{"server", "client", "email", "code", "ocsp", "ts", "any"}
+	var ekuSets [][]int
+	ekuSets = append(ekuSets, nil)
+	for i := range ekus {
+		ekuSets = append(ekuSets, []int{i})
+	}
+	for i := range ekus {
+		for j := range ekus {
+			if i != j {
+				ekuSets = append(ekuSets, []int{i, j}) // ordered: the first EKU is special to some lints
+			}
+		}
+	}
+	kus := [][]int{{0}, {1}, {2}, {3}, {4}, {5}, {6}, {7}, {8}, {0, 2}, {2, 4}, {0, 4}, {5, 6}, {0, 1}}
+	for ki, ku := range kus {
+		for ei, es := range ekuSets {
+			for _, ec := range []bool{false, true} {
+				if ec && (ki+ei)%3 != 0 {
+					continue
+				}
+				sp := tlsLeafSpec(date(2024, 3, 1), date(2024, 9, 1))
+				var eo [][]int
+				name := fmt.Sprintf("tmpl:ku=%v,eku=", ku)
+				for _, e := range es {
+					eo = append(eo, ekus[e])
+					name += ekuNames[e] + "+"
+				}
+				exts := []*der.Node{certgen.KeyUsage(ku...)}
+				if len(eo) > 0 {
+					exts = append(exts, certgen.EKU(eo...))
+				}
+				exts = append(exts, certgen.BasicConstraints(false, true), certgen.Policies(certgen.PolDV), certgen.SAN(false, certgen.GNDNS("example.com")))
+				sp.Exts = exts
+				if ec {
+					sp.SPKI = certgen.ECSPKI()
+					name += ",ec"
+				}
+				b := sp.Build()
+				if _, err := seeds.ParseCert(b); err == nil {
+					all = append(all, seeds.Seed{Name: name, Kind: seeds.Cert, DER: b})
+				}
+			}
+		}
+	}
+	return all
+}
+
+// checkC05sat — saturation history: one process lints EVERY object (order from args: fwd | rev), then
+// every object again. The second-pass table is compared by the driver with the fresh-process table
+// (each object linted as the very first work of its own process): whatever the process accumulated
+// from the whole corpus — a widened table, a memo, a sorted slice — must not show.
+func checkC05sat(ctx *core.Ctx, rep *core.Report) {
+	all := c05Objects()
+	seam.SetNow(c05T0)
+	g := lint.GlobalRegistry()
+	order := make([]int, len(all))
+	for i := range order {
+		order[i] = i
+		if ctx.Args["order"] == "rev" {
+			order[i] = len(all) - 1 - i
+		}
+	}
+	// order=cfg: the first pass runs under a registry whose configuration sets a non-default value for every
+	// option of every configurable lint; the second pass (global registry, no configuration) must not remember it
+	var first lint.Registry = g
+	if ctx.Args["order"] == "cfg" {
+		doc := ""
+		for _, cl := range discoverConfigurable() {
+			doc += "[" + cl.Name + "]\n"
+			for _, f := range cl.Fields {
+				if v := altValues(f); len(v) > 0 {
+					doc += fmt.Sprintf("%s = %s\n", f.Name, tomlLit(v[0]))
+				}
+			}
+		}
+		if c, err := lint.NewConfigFromString(doc); err == nil {
+			first = fullCopy()
+			first.SetConfiguration(c)
+		} else {
+			rep.InternalError("saturation configuration: %v", err)
+		}
+	}
+	for pass := 1; pass <= 2; pass++ {
+		for _, i := range order {
+			o, err := zl.Parse(all[i].Kind, all[i].DER)
+			if err != nil {
+				continue
+			}
+			reg := g
+			if pass == 1 {
+				reg = first
+			}
+			rs, p := zl.Lint(o, reg)
+			rep.Inc("states")
+			rep.Inc("transitions")
+			if p != nil || rs == nil {
+				continue
+			}
+			if pass == 2 {
+				rep.SetAdd("sat_tables", all[i].Name+"|"+fmt.Sprintf("%016x", core.HashStr(vecOf(rs))))
+			}
+		}
+	}
+}
+
 // checkC05first: one process per first object. The process lints object
 // args[first] before anything else, then a fixed probe set; the driver
 // compares the probe tables over all processes (a first-call-wins cache makes
 // them differ).
 func checkC05first(ctx *core.Ctx, rep *core.Report) {
-	all := seeds.Load()
+	all := c05Objects()
+	rep.Add("g_objects_total", int64(len(all)))
 	first := argInt(ctx, "first", 0)
 	if first < 0 || first >= len(all) {
 		return
@@ -602,7 +718,10 @@ func checkC05first(ctx *core.Ctx, rep *core.Report) {
 	seam.SetNow(c05T0)
 	g := lint.GlobalRegistry()
 	if o, err := zl.Parse(all[first].Kind, all[first].DER); err == nil {
-		zl.Lint(o, g)
+		if rs, p := zl.Lint(o, g); p == nil && rs != nil {
+			// the fresh-process verdict of this object: reference of the saturation history
+			rep.SetAdd("fresh_tables", all[first].Name+"|"+fmt.Sprintf("%016x", core.HashStr(vecOf(rs))))
+		}
 	}
 	rep.Notes = append(rep.Notes, "first="+all[first].Name)
 	nprobe := 32
